@@ -41,9 +41,17 @@ def reexports():
     return ''.join(l + '\n' for l in re.findall(r'^pub use crate::[^\n]*;', lib, flags=re.M))
 
 
-def build(extra_mods=(), mutate_fn_end_false=False):
+def is_module_abort(msg):
+    return 'expression simplifies to' in msg or 'failed to simplify' in msg
+
+
+def build(extra_mods=(), force_assumed=()):
     """Returns dict with text, registry (clauses), logs, assumed, fn line ranges."""
     by_mod, allc = load_contracts()
+    for c in allc:
+        if c.name in force_assumed and not c.assumed:
+            c.assumed = 'forced after a module-aborting failure in this function (contract assumed to examine the rest of its module)'
+            c.forced = True
     registry = []
     logs = {}
     chunks = ['// GENERATED from %s/src on every run by /verif/tools — do not edit\n' % REPO,
